@@ -138,6 +138,19 @@ impl CoreDocumentData {
     Ok(())
   }
 
+  /// Number of entries of the method, relationship and service sets.
+  fn entry_counts(&self) -> [usize; 7] {
+    [
+      self.verification_method.len(),
+      self.authentication.len(),
+      self.assertion_method.len(),
+      self.key_agreement.len(),
+      self.capability_delegation.len(),
+      self.capability_invocation.len(),
+      self.service.len(),
+    ]
+  }
+
   // Apply the provided fallible functions to the DID components of `id`, `controller`, methods and services
   // respectively.
   fn try_map<F, G, H, L, E>(
@@ -883,9 +896,18 @@ impl CoreDocument {
     L: FnMut(CoreDID) -> std::result::Result<CoreDID, E>,
     M: FnOnce(crate::Error) -> E,
   {
+    let entries_before: [usize; 7] = self.data.entry_counts();
     let data = self
       .data
       .try_map(id_update, controller_update, methods_update, service_update)?;
+    // The mapped entries are collected into ordered sets, which ignore duplicates: if an update made two
+    // identifiers identical an entry has been dropped silently.
+    if data.entry_counts() != entries_before {
+      return Err(error_cast(Error::InvalidDocument(
+        "the update made two methods or services share an identifier",
+        None,
+      )));
+    }
     CoreDocument::try_from(data).map_err(error_cast)
   }
 
